@@ -2,7 +2,7 @@
    Model: Mvcc/Model.v ([step], [run cmds := fold_left step]); discipline and declarative
    specifications: Mvcc/Spec.v. Every statement is over ALL command sequences. *)
 From Verif Require Import Mvcc.Model Mvcc.Spec Mvcc.ProofsStore Mvcc.ProofsKey Mvcc.ProofsKstep Mvcc.ProofsShape
-     Mvcc.ProofsStep Mvcc.ProofsRead Mvcc.ProofsLate Mvcc.ProofsMarker Mvcc.ProofsIdem Mvcc.ProofsIdem2 Mvcc.ProofsIdem3 Mvcc.ProofsLockMono Mvcc.ProofsDef Mvcc.ProofsSeq Mvcc.ProofsGcIdem Mvcc.Handler Mvcc.Deadlock Mvcc.ProofsDeadlock Mvcc.ProofsDeadlock2.
+     Mvcc.ProofsStep Mvcc.ProofsRead Mvcc.ProofsLate Mvcc.ProofsMarker Mvcc.ProofsIdem Mvcc.ProofsIdem2 Mvcc.ProofsIdem3 Mvcc.ProofsLockMono Mvcc.ProofsDef Mvcc.ProofsSeq Mvcc.ExampleCmds Mvcc.ProofsGcIdem Mvcc.Handler Mvcc.Deadlock Mvcc.ProofsDeadlock Mvcc.ProofsDeadlock2.
 
 (* ---- induction carriers *)
 (* unconditional: keys ascending, write records of every key strictly descending by commit ts *)
@@ -185,11 +185,15 @@ Proof. exact seq_delete_range. Qed.
 Print Assumptions C12_delete_range.
 
 (* ---- GC *)
-Theorem C12_gc_refuses_lock : forall st s e sp,
-  (snd (step st (GC s e sp)) = RErr (Some (EAbort AGcLock)) <-> gc_refused st s e sp = true)
-  /\ (gc_refused st s e sp = true -> fst (step st (GC s e sp)) = st)
-  /\ (gc_refused st s e sp = false -> snd (step st (GC s e sp)) = RErr None).
-Proof. exact seq_gc_refuses_lock. Qed.
+(* against a predicate independent of the model's own branch condition: a key of [s,e) carrying a lock with
+   start ts <= safe point makes GC answer the error and change nothing; without such a key GC runs *)
+Theorem C12_gc_refuses_lock : forall cmds s e sp,
+  let st := run cmds in
+  ((exists k l, in_range s e k = true /\ lock_of st k = Some l /\ l_start l <= sp) ->
+   step st (GC s e sp) = (st, RErr (Some (EAbort AGcLock)))) /\
+  (~ (exists k l, in_range s e k = true /\ lock_of st k = Some l /\ l_start l <= sp) ->
+   snd (step st (GC s e sp)) = RErr None).
+Proof. exact gc_refuses_lock_seq. Qed.
 Print Assumptions C12_gc_refuses_lock.
 
 (* GC at the same safe point twice: same answer, and the second run leaves every key exactly as the first left it *)
@@ -257,15 +261,6 @@ Proof. exact drun_store. Qed.
 Print Assumptions C12_deadlock_store_refines.
 
 (* ------------------------------------------------------------------ non-vacuity *)
-Definition T (r : N) : N := r * 262144.
-Definition put (k s : N) : cmd := Prewrite [mkMut MPut k (16 + k) AsNone false] 1 (T s) 0 1 0 false.
-Definition ex_cmds : list cmd :=
-  [ put 1 1; put 2 1; Commit [1] (T 1) (T 3); Rollback [2] (T 1);            (* commits one key, rolls back the other *)
-    PessLock (mkPessReq [(1, false)] 1 (T 2) (T 5) 3 0 true false false false true);
-    Prewrite [mkMut MPut 1 33 AsNone true] 1 (T 2) (T 5) 1 0 false;          (* over the own pessimistic lock, commit T3 in between *)
-    CheckTxnStatus 1 (T 2) (T 6) (T 4) true false; Commit [1] (T 2) (T 8); Commit [1] (T 2) (T 8);
-    put 2 1;                                                                  (* late prewrite: rejected *)
-    Cleanup 2 (T 4) 0; ResolveLock 0 0 (T 4) 0; GC 0 0 (T 9); Get 1 (T 10) [] ].
 Example ex_disciplined : oracle_ts ex_cmds = true.
 Proof. vm_compute. reflexivity. Qed.
 Example ex_state : committed (run ex_cmds) 1 (T 2) = true /\ rolled_back (run (firstn 12 ex_cmds)) 2 (T 4) = true
@@ -278,9 +273,6 @@ Example ex_idem_class : idem_class (Commit [1] (T 2) (T 8)) = true /\ oracle_ts 
 Proof. vm_compute. split; reflexivity. Qed.
 (* the discipline is needed: a pessimistic lock request after the commit record lets the mock roll the
    committed transaction back on that key *)
-Definition ex_bad : list cmd :=
-  [ put 1 1; Commit [1] (T 1) (T 3);
-    PessLock (mkPessReq [(1, false)] 1 (T 1) (T 5) 3 0 false false false false true); Rollback [1] (T 1) ].
 Example ex_bad_not_disciplined : oracle_ts ex_bad = false
   /\ committed (run ex_bad) 1 (T 1) = true /\ rolled_back (run ex_bad) 1 (T 1) = true.
 Proof. vm_compute. repeat split. Qed.
@@ -288,7 +280,6 @@ Example ex_gc : gc_refused (run ex_cmds) 0 0 (T 9) = false /\ gc_refused (run (f
 Proof. vm_compute. split; reflexivity. Qed.
 
 (* ---- idempotence: what does not hold / why the side conditions are there *)
-Definition pl1 (s fu ttl mc : N) : cmd := PessLock (mkPessReq [(1, false)] 1 s fu ttl mc false false false false true).
 Example ex_cts_not_idempotent :
   let st := run [pl1 (T 1) (T 2) 1 0] in
   let c := CheckTxnStatus 1 (T 1) (T 9) (T 9) false true in
@@ -323,7 +314,6 @@ Example ex_prewrite_at_max_ts_not_idempotent :
 Proof. vm_compute. split; reflexivity. Qed.
 
 (* ---- deadlock detector *)
-Definition plk (s : N) (k : N) : cmd := PessLock (mkPessReq [(k, false)] 1 s (T 9) 3 0 false false false false true).
 Example ex_deadlock_two_cycle :
   snd (dstep (drun [plk (T 1) 1; plk (T 2) 2; plk (T 1) 2]) (plk (T 2) 1))
   = RPessD [EDeadlock (T 1) 1 2] []
